@@ -154,6 +154,26 @@ static const char *post_clauses(const uscxml_ctx *pre, const uscxml_ctx *c, int 
       if (p == 0) { if (!(c->flags & USCXML_CTX_TOP_LEVEL_FINAL)) return "final child of <scxml> entered without TOP_LEVEL_FINAL"; continue; }
       if (!sp_bit(done_set, p)) return "done.state.<parent> not raised for an entered final state";
     }
+  if (r == USCXML_ERR_OK && legal_config(c->config)) {
+    /* no other done event: done.state.<s> needs an active final child of s, or s parallel with all regions in a final state */
+    int in_final[D_N];
+    for (int i = D_N - 1; i >= 0; i--) {
+      in_final[i] = 0;
+      if (!sp_bit(c->config, i)) continue;
+      if (sp_compound(i)) { for (int j = i + 1; j < D_N; j++) if (sp_child(j, i) && d_kind[j] == K_FINAL && sp_bit(c->config, j)) in_final[i] = 1; }
+      else if (d_kind[i] == K_PARALLEL) { in_final[i] = 1; for (int j = i + 1; j < D_N; j++) if (sp_child(j, i) && sp_proper(j) && !in_final[j]) in_final[i] = 0; }
+    }
+    for (int s = 0; s < D_N; s++) {
+      if (!sp_bit(done_set, s)) continue;
+      int why = 0;
+      for (int f = 1; f < D_N; f++) {
+        if (d_kind[f] != K_FINAL || !sp_bit(c->config, f)) continue;
+        if (d_parent[f] == s && s != 0) why = 1;
+        if (d_parent[f] != 0 && d_parent[d_parent[f]] == s && d_kind[s] == K_PARALLEL && in_final[s]) why = 1;
+      }
+      if (!why) { static char msg[200]; snprintf(msg, sizeof msg, "done.state.%s raised although it has no active final child / not all of its regions are in a final state", d_id[s] ? d_id[s] : "<scxml>"); return msg; }
+    }
+  }
   return 0;
 }
 
